@@ -82,6 +82,7 @@ import JdProofs.CliExitCodes
 import JdProofs.OptSites
 import JdProps.C01Precision
 import JdProps.C01Void
+import JdProps.C05V1
 
 namespace Jd.Props.C05
 open Jd Jd.Spec
